@@ -264,6 +264,11 @@ Proof.
   exact (sim_same_net d d' mu rho MR sl_top sl_desc sl_ports sl_sigs sl_inst sl_single sl_inj sl_loc sl_val
            (wfs_step_total d Hwfs) x y Hx Hy).
 Qed.
+Theorem slices_dev x dev : valid d x -> dev_at d x = Ok dev -> dev_at d' x = Ok dev.
+Proof.
+  intros Hv Hd. rewrite <- (phi_id d rho (fun _ _ => eq_refl) x).
+  exact (sim_dev d d' mu rho MR sl_top sl_desc sl_ports sl_sigs sl_inst sl_single sl_inj sl_loc sl_val (wfs_step_total d Hwfs) x dev Hv Hd).
+Qed.
 End SlicesPass.
 
 Theorem slices_wfs d d' : wfs d -> slices_design d = Ok d' -> wfs d' /\ no_arrays d' /\ resolved_design d'.
